@@ -1043,9 +1043,18 @@ def do_op(pool, d, mon):
         mon.watch(mt, 'tagged_mesh')
         cls = type(mt)
         if how == 'dict':
-            r = cls.from_dict(mt.to_dict())
+            data = mon.watch(mt.to_dict(), 'from_dict_argument')          # a caller-owned dictionary
+            r = cls.from_dict(data)
         elif how == 'json':
-            r = cls.from_dict(json.loads(json.dumps(mt.to_dict())))
+            data = mon.watch(json.loads(json.dumps(mt.to_dict())), 'from_dict_argument')
+            r = cls.from_dict(data)
+        elif how == 'meshio':
+            from skfem.io.meshio import from_meshio, to_meshio
+            pd = mon.watch({'u': np.arange(mt.p.shape[1], dtype=float)}, 'point_data')      # caller-owned dictionaries
+            cd = mon.watch({'c': [np.arange(mt.t.shape[1], dtype=float)]}, 'cell_data')
+            mio = to_meshio(mt, point_data=pd, cell_data=cd)
+            r = from_meshio(mio)
+            return canon([r, mt, sorted(mio.point_data), sorted(mio.cell_data)])
         else:
             with tempfile.TemporaryDirectory(prefix='grpI_c15_') as td:
                 if how == 'npz':
@@ -1172,7 +1181,7 @@ def random_op(rng, sub=None):
         return {'op': 'retag', 'mesh': mname,
                 'how': rng.choice(['boundaries-same', 'boundaries-new', 'subdomains-same', 'subdomains-new', 'refined'])}
     if k == 'io':
-        hows = ['dict', 'json', 'npz', 'msh', 'vtk'] if fam != 'line' else ['dict', 'json', 'npz']
+        hows = ['dict', 'json', 'npz', 'msh', 'vtk', 'meshio', 'meshio'] if fam != 'line' else ['dict', 'json', 'npz', 'meshio']
         return {'op': 'io', 'mesh': mname, 'how': rng.choice(hows)}
     if k == 'composite':
         e2 = rng.choice([e for e in elems if e in SCALAR_H1 and e != ename] or [ename])
@@ -1466,6 +1475,16 @@ def search(ctx):
                      f'{name}: keyword arguments of an earlier call reach the backend of a later call', dict(w, site='closure'))
     # ---------------- constructors: caller-owned arrays and long-lived source meshes
     search_constructors(ctx)
+    # ---------------- caller-owned dictionaries handed to to_meshio / from_dict (every family)
+    for mname in ('tri', 'quad', 'tet', 'hex', 'line', 'tri2'):
+        for how in ('meshio', 'dict', 'json'):
+            ops = [{'op': 'io', 'mesh': mname, 'how': how}]
+            problems, _ = run_history(ops)
+            ctx.count(('io-dicts', mname, how), nontrivial=True)
+            for k, kind, detail in problems:
+                key = classify(ops, kind)
+                ctx.fail(key, f'{how} round trip of a {MESH_SPECS[mname]["cls"]}: {kind}: {detail}',
+                         {'site': 'history', 'ops': ops, 'changed': detail if kind == 'mutated' else None, 'kind': kind})
     # ---------------- tagging meshes that already carry tags (every family, same and new names): operand and its tag
     # dictionaries unchanged, result equal to a fresh pool's
     for mname in ('tri', 'quad', 'tet', 'hex', 'line', 'tri2'):
